@@ -662,6 +662,57 @@ pub fn run_c19(ctx: &mut Ctx) {
         }
         let _ = pi;
     }
+    // dimension pairs whose product overflows, with data lengths equal to the WRAPPED product (and a
+    // few others): an unchecked or wrongly-typed multiplication would accept these
+    const HUGE: [(&str, u64); 11] = [
+        ("2147483648", 1 << 31),
+        ("4294967296", 1 << 32),
+        ("8589934592", 1 << 33),
+        ("4611686018427387904", 1 << 62),
+        ("9223372036854775808", 1 << 63),
+        ("9223372036854775809", (1 << 63) + 1),
+        ("6148914691236517206", 6148914691236517206),
+        ("18446744073709551613", u64::MAX - 2),
+        ("18446744073709551614", u64::MAX - 1),
+        ("18446744073709551615", u64::MAX),
+        ("12297829382473034411", 12297829382473034411),
+    ];
+    const SMALL: [(&str, u64); 5] = [("0", 0), ("1", 1), ("2", 2), ("3", 3), ("4", 4)];
+    for (ai, a) in HUGE.iter().enumerate() {
+        if !ctx.case(|| format!("C19 overflow-wrap num_cols={}", a.0)) {
+            if ctx.done() {
+                return;
+            }
+            continue;
+        }
+        let mut rng = Rng::from_parts(ctx.seed, ai as u64, 191);
+        for b in HUGE.iter().chain(SMALL.iter()) {
+            let wrapped = a.1.wrapping_mul(b.1);
+            let mut lens = vec![0usize, 1, 2];
+            if wrapped <= 24 {
+                lens.push(wrapped as usize);
+            }
+            lens.sort_unstable();
+            lens.dedup();
+            for &l in &lens {
+                for swap in [false, true] {
+                    let (x, y) = if swap { (b, a) } else { (a, b) };
+                    let (t, v) = gen_data::<u32>(&mut rng, l, false);
+                    let fields = vec![
+                        Field { key: "num_cols".into(), val: FVal::Dim(x.0, Some(x.1)) },
+                        Field { key: "num_rows".into(), val: FVal::Dim(y.0, Some(y.1)) },
+                        Field { key: "data".into(), val: FVal::Data(t, v) },
+                    ];
+                    let text = render(&fields, false);
+                    for tr in 0..4 {
+                        judge::<u32>(ctx, tr, &text, Some(&fields));
+                    }
+                    ctx.nontrivial(("C19wrap", x.0, y.0, l));
+                    ctx.count("overflow_wrap_docs", 1);
+                }
+            }
+        }
+    }
     // top-level non-objects and degenerate texts
     if ctx.case(|| "C19 top-level non-objects".to_string()) {
         for text in ["", " ", "null", "3", "\"s\"", "[]", "[1,2,3]", "[2,2,[1,2,3,4]]", "true", "{", "}", "{}", "{\"data\":[]}", "{\"num_cols\":0,\"num_rows\":0}", "[{\"num_cols\":0,\"num_rows\":0,\"data\":[]}]", "{\"num_cols\":1,\"num_rows\":1,\"data\":[1]}x", "\u{feff}{}", "{\"num_cols\":0,\"num_rows\":0,\"data\":[]}"] {
